@@ -3,7 +3,7 @@ from vcommon import *
 import scen_common, prop_mu_family
 
 PID = "C13"
-PROP_V = ["Props/Properties_C13.v", "Props/Properties_C13b.v", "Props/Properties_C13r.v", "Props/Properties_C05sw.v"]
+PROP_V = ["Props/Properties_C13.v", "Props/Properties_C13b.v", "Props/Properties_C13r.v", "Props/Properties_C13x.v", "Props/Properties_C05sw.v"]
 GEN_MODULES = ["Consts", "Sites"]
 FLOW_FILES = ['mu.c', 'sem_wait.c', 'note.c', 'mu_wait.c', 'cv.c', 'wait.c', 'counter.c']
 REPLAY_HINT = "VRT_SEED=<seed> [env] _work/h/<scenario>: the arena unmaps freed blocks (UAF) and the runtime knows every thread's parked stack pointer (DEADSTACK)"
@@ -32,13 +32,19 @@ PARTIAL = ["Properties_C13b proves by computation over the regenerated Gen/Flow.
            "records (C13r_tail_after_free, non-vacuous: C13r_tail_example frees while another thread is still at its V); the sound read-mode pattern "
            "(decrement after runlock returned) is C13r_reader_variant; the in-lock read-mode decrement is refuted as a CLIENT error "
            "(C13r_reader_inlock_refuted: the object is freed while another reader still holds its own read lock -- the withdrawn design finding F5).  "
-           "Limits: condition-free MuModel WITHOUT condition-variable traffic on the same mutex: the theorem rests on 'MU_WAITING set => the queue is non-empty' "
-           "(the early-release window of nsync_mu_unlock_slow_ is then pinned by a queued thread that owns a reference), which cv.c's wake_waiters violated -- F15 "
-           "(DESIGN 9.2), found by the statement audit of this very theorem, reproduced on the real library by the scripted scenario refcount_cv and repaired in /repo "
-           "0f631a1; after the repair wake_waiters clears the bit again when the queue is empty (C04_waiting_bit_has_a_waiter / MuXferModel), but a refcount theorem "
-           "over the combined mutex + cv model is not yet stated: that mix is decided by the arena oracle (refcount_cv, scripted and random schedules); likewise the "
-           "pattern around nsync_mu_wait (refcount VRT_MUWAIT=1; there the stale bits come with MU_CONDITION, which makes the release late).  A thread that meets "
-           "MU_CONDITION crashes in the model and keeps its reference; the model's footprint is word + queue, reads included by pc",
+           "Limits of C13r: condition-free MuModel without condition-variable traffic; it rests on 'MU_WAITING set => the queue is non-empty', which cv.c's wake_waiters "
+           "violated -- F15 (DESIGN 9.2), found by the statement audit of that very theorem, reproduced on the real library (refcount_cv) and repaired in /repo 0f631a1",
+           "THE REFCOUNT THEOREM WITH CV TRAFFIC (Properties_C13x over Model/MuXRefModel.v = MuXferModel + refs / freed / bad): users make arbitrary rounds of lock / rlock / "
+           "trylock / unlock, cv waits in either mode (native and through nsync_wait_n with the mutex), signals and broadcasts under either lock or none, then the write-mode "
+           "decrement round; NON-users wait on the cv through nsync_wait_n without a mutex and signal / broadcast; C13x_no_touch_after_free: in every reachable world no step "
+           "reads or writes the mutex word or queue after the free (any threads < 2^24 - 1, programs of that shape, schedules, choices); it uses C04x_waiting_only_if_queued "
+           "(the F15 repair as an invariant) exactly where C13r used the queue invariant (C13x_release_has_waiter).  THE REGRESSION: C13x_old_code_refuted -- the same model "
+           "with the release step of the code before 0f631a1 reaches bad = true on the F15 schedule (C13x_f15_old_stale_bit: word 268 over an empty queue; "
+           "C13x_f15_old_window: freed while D sits in nsync_mu_unlock_slow_ with an empty wake list); C13x_f15_schedule_repaired: harmless under the repaired step.  "
+           "Random exploration of the extracted model (3*10^5 programs) finds neither a violation of the repaired model nor F15 in the old one (too deep): only the scripted "
+           "schedule does.  Still outside any theorem: the pattern around nsync_mu_wait (MuWaitModel has no refcount wrapper; refcount VRT_MUWAIT=1 and mix_all are the "
+           "oracle there; the stale bits a timed-out nsync_mu_wait leaves come with MU_CONDITION, which makes the release late).  A thread that meets MU_CONDITION crashes "
+           "in these models and keeps its reference; the models' footprint is word + queue, reads included by pc",
            "waker half (cv / note / counter vs nsync_wait_n and cancellable waits): arena + dead-stack oracles over sampled schedules"]
 TRUSTED_BASE = ["replay/waitn_replay.ml footprint comparison: attribution of traced events to model steps by the scenario's brackets and linearization events; stack regions carry no offsets",
                 "harness/rt/vrt.c arena (one mapping per allocation, PROT_NONE after free, never reused) and dead-stack check"]
@@ -50,10 +56,12 @@ def run(tier, seed):
     tie = prop_mu_family.mu_tie(res, tier, seed, 200, 2000)
     # the reference-count pattern itself (MuRefModel steps MuModel unchanged: the tie of the wrapper is MuModel's, on the pattern's own traces)
     tie2 = mu_common.tie(res, "mu_replay", "MuModel (refcount pattern)", [("refcount", {}, 150, 1500), ("refcount", {"VRT_RMODE": 1}, 100, 1000)], tier, seed)
+    tiex = mu_common.tie(res, "muxfer_replay", "MuXferModel", [("cv_mix", {"VRT_MODE": m}, 60, 600) for m in (0, 2, 3, 7)], tier, seed)
     tie3 = mu_common.tie(res, "semwait_replay", "SemWaitModel", [("cancel_mix", {}, 100, 1000), ("cancel_mix", {"VRT_KIND": 2, "VRT_OMIT": 1}, 50, 500),
                                                                    ("cancel_mix", {"VRT_KIND": 3, "VRT_OMIT": 0}, 50, 500)], tier, seed)
     for k in ("traces_validated_against_impl", "lockstep_model_steps"):
-        tie[k] = tie.get(k, 0) + tie2.get(k, 0) + tie3.get(k, 0)
+        tie[k] = tie.get(k, 0) + tie2.get(k, 0) + tie3.get(k, 0) + tiex.get(k, 0)
+    tie["model_sites_hit_muxfer"] = tiex.get("model_sites_hit", {})
     specs = [("mix_all", {}, 2000, 40000), ("mix_all", {"VRT_DEBUGGER": 1, "VRT_RACE": 0}, 600, 10000), ("refcount_cv", {}, 400, 6000), ("refcount_cv", {"VRT_SCRIPT": 0}, 1500, 30000), ("refcount", {}, 3000, 60000), ("refcount", {"VRT_RMODE": 1}, 1000, 20000), ("refcount", {"VRT_MUWAIT": 1}, 3000, 60000), ("refcount", {"VRT_MUWAIT": 1, "VRT_PLAINPM": 30}, 1500, 30000),
              ("waitn_mix", {"VRT_PLAINPM": 40}, 2000, 60000), ("waitn_mix", {"VRT_AIM": 60}, 4000, 60000), ("waitn_mix", {"VRT_AIM": 60, "VRT_KIND": 1}, 4000, 60000),
              ("waitn_mix", {"VRT_AIM": 60, "VRT_KIND": 2}, 2000, 30000), ("cancel_mix", {"VRT_AIM": 60}, 1500, 30000), ("cv_mix", {"VRT_MODE": 3, "VRT_PLAINPM": 40}, 1000, 20000), ("waitn_mix", {}, 3000, 60000),
